@@ -580,6 +580,26 @@ func (e *Engine) cutLoopEntry(fr *Frame, h *ssa.BasicBlock, ord int, lc *LoopCon
 	blocks := loopBlocks(fr.fn, h, back)
 	cells, comps, all, freshOnly := e.loopWrites(fr, st, blocks)
 	before := st.clone()
+	if lc != nil && len(lc.Assigns) > 0 {
+		// loop frame: what one iteration may write that outlives it (anything else would be retained state)
+		var extra []string
+		if all {
+			extra = append(extra, "*")
+		}
+		for _, cmp := range comps {
+			ok := false
+			for _, a := range lc.Assigns {
+				if a == "*" || strings.HasPrefix(cmp, a) {
+					ok = true
+				}
+			}
+			if !ok {
+				extra = append(extra, cmp)
+			}
+		}
+		e.oblige("loopframe", fmt.Sprintf("loopframe@%s", name), "an iteration writes "+strings.Join(extra, ", ")+" which the loop's assigns clause does not allow (state retained across iterations)", reach, BoolLit(len(extra) == 0),
+			&Clause{Kind: "loopassigns", Text: strings.Join(lc.Assigns, ", "), Src: e.FC.Src})
+	}
 	for a := range cells {
 		if _, live := st.cells[a]; !live {
 			continue
@@ -1110,8 +1130,16 @@ func (e *Engine) execInstr(fr *Frame, st *State, reach Term, in ssa.Instruction)
 	case *ssa.Send:
 		e.note("channel send not modelled")
 	case *ssa.Select:
-		e.note("select not modelled (nondeterministic choice)")
-		fr.vals[x] = e.havocVal(reach, "select", x.Type())
+		e.note("select not modelled (nondeterministic choice among its cases)")
+		sv := e.havocVal(reach, "select", x.Type())
+		if len(sv.L) > 0 && sv.L[0].Sort == SInt {
+			lo := IntLit(0)
+			if !x.Blocking {
+				lo = IntLit(-1)
+			}
+			e.assume(reach, And(Bin(SBool, "<=", lo, sv.L[0]), Bin(SBool, "<", sv.L[0], IntLit(int64(len(x.States))))))
+		}
+		fr.vals[x] = sv
 	case *ssa.DebugRef:
 	case *ssa.SliceToArrayPointer, *ssa.MultiConvert:
 		e.note("unsupported instruction %T", in)
@@ -1174,7 +1202,12 @@ func (e *Engine) allocCheck(reach Term, n Term, what string) {
 		return
 	}
 	bound := e.P.allocBound(e.FuncID)
-	e.safety("alloc", what, reach, Bin(SBool, "<=", n, IntLit(bound)))
+	cond := Bin(SBool, "<=", n, IntLit(bound))
+	if e.allocExtra.S != "" {
+		// allocation backed by data the function was handed (contract: allocbound <expr>)
+		cond = Or(cond, Bin(SBool, "<=", n, e.allocExtra))
+	}
+	e.safety("alloc", what, reach, cond)
 }
 
 func (e *Engine) unop(fr *Frame, st *State, reach Term, x *ssa.UnOp) Val {
